@@ -27,6 +27,9 @@ CHECKS = {
  "C14": ("proptest-generated CORS policies × application trees × simple/preflight requests; oracle = reference CORS model derived from the statement, fed with the policy and the flattened route table",
          "Exploration of policies × configurations × requests through the real CORS fang, automatic OPTIONS handlers, router and serializer. Right level: the property fails through interactions of registration shape (methods split over items/mounts) with preflights, which need generated configurations.",
          "policy on the root application; HEAD/OPTIONS as requested method accept either outcome; Vary unchecked", "DESIGN.md §7 C14"),
+ "C17": ("proptest-generated message sequences × producer schedules (scripted Pending polls on the harness's own executor) through the real handler/stream/serializer; oracle chain: independent response parser → strict chunk decoder (cross-checked with chunked_transfer) → independent WHATWG event-stream parser",
+         "Exploration of inputs × schedules: 60 000 (quick) sequences of up to 12 adversarial messages under scripted paces for two producer kinds. Right level: the property is about what a conforming client decodes; an independent decoder chain is the direct oracle, and the schedule is owned by the harness.",
+         "a self-waking Pending models any pace of the producer; messages without NUL", "DESIGN.md §7 C17"),
  "C19": ("proptest-generated directory trees on a scratch file system × Dir settings × request paths; model-based oracle (route → bytes/MIME map computed from the tree; collisions must be refused)",
          "Exploration of configurations (trees, mount routes, omit settings) × inputs (paths incl. traversal/encoding/near-miss variants) through the real Dir registration, router and serializer. Right level: 'exactly its files and nothing else' needs both directions checked over many trees.",
          "documented restrictions of Dir (supported extensions, UTF-8 text, valid segment names) are generator invariants; scratch trees live under /verif/target/tmp", "DESIGN.md §7 C19"),
